@@ -21,7 +21,8 @@
 (***************************************************************************)
 EXTENDS Scanner, Json, TLC, Held
 
-VARIABLES l, other     \* other: <<content, position>> of a second scanner that stays alive while the current one is used
+VARIABLES l, other,    \* other: <<content, position>> of a second scanner that stays alive while the current one is used
+          last         \* what the current scanner reported after the previous call: <<TRUE, peeked line, peeked column>>, or <<FALSE, 0, 0>>
 Trace == ndJsonDeserialize("trace.ndjson")
 
 \* Each clause contributes its name when it fails; "" means the event is accepted.
@@ -51,17 +52,22 @@ Apply(e) ==
 
 \* (calls traced inside the library - the repository's own tests and the tokenizers as clients, hook verifEvent - carry no
 \* return value: they are judged by what the scanner reports after them)
+\* "the peeked line and column are those reported after the next read" - whatever the text is made of (also characters whose
+\* counting as line breaks is left open): a read reports the line and column that were peeked just before it
+PeekThenReadFails(e) == F(e.op = "read" /\ last[1] => e.obs.line = last[2] /\ e.obs.col = last[3],
+                          "the line/column reported after a read are not those peeked before it")
 RetFails(e) == F(e.op = "read" /\ "ret" \in DOMAIN e => e.ret = ReadRet, "read returned the wrong character")
             \o F(e.op = "readmany" /\ e.n >= 1 => e.ret = CharAt(content, k + e.n), "read returned the wrong character")
 
-Init == l = 1 /\ content = <<>> /\ k = 0 /\ other = <<<<>>, 0>>
+Init == l = 1 /\ content = <<>> /\ k = 0 /\ other = <<<<>>, 0>> /\ last = <<FALSE, 0, 0>>
 Next ==
   /\ l <= Len(Trace)
   /\ l' = l + 1
   /\ LET e == Trace[l] IN
      /\ Apply(e)
-     /\ LET f == RetFails(e) \o ObsFails(e.obs, content', k') IN
+     /\ last' = IF e.op = "switch" THEN <<FALSE, 0, 0>> ELSE <<TRUE, e.obs.pline, e.obs.pcol>>
+     /\ LET f == RetFails(e) \o PeekThenReadFails(e) \o ObsFails(e.obs, content', k') IN
         Report(l, f, Trace[l])
-Spec == Init /\ [][Next]_<<l, content, k, other>>
+Spec == Init /\ [][Next]_<<l, content, k, other, last>>
 Accepted == TLCGet("stats").diameter - 1 = Len(Trace)
 =============================================================================
